@@ -1,3 +1,66 @@
 import HapVerif.Model.C02
+import HapVerif.Generated.Facts
+/-!
+# C02 — running HAProxy never diverges from disk after runtime updates (M-Dyn)
+
+Model: `HapVerif.C02.checkBackendPair` (dynupdate.go) + the HAProxy runtime server table
+(`load`, `applyCmd`).  The deep theorems (`pair_sound`, `pair_fault`, `names_perm`,
+`len_preserved`, `no_oob`) live in `Props/C02Pair.lean` once closed; this file holds the decision
+structure around the pairing loop and the witnesses of the repaired defect.
+-/
 namespace HapVerif.C02
+
+/-- more endpoints than slots: never dynamic, nothing is sent -/
+theorem more_endpoints_reload (old cur : Back) (same : Bool) (sc : List Resp)
+    (h : old.eps.length < cur.eps.length) :
+    (checkBackendPair old cur same sc).updated = false ∧ (checkBackendPair old cur same sc).cmds = [] := by
+  simp [checkBackendPair, h]
+
+/-- anything but endpoints differing: never dynamic (for every endpoint change and every response) -/
+theorem other_change_reload (old cur : Back) (sc : List Resp) (hr : cur.resolver = false)
+    (hd : cur.dynUpdate = false) : (checkBackendPair old cur false sc).updated = false := by
+  unfold checkBackendPair
+  split
+  · rfl
+  · simp [hr, hd]
+
+/-- duplicated targets (the repaired defect): reload, no command, no rename -/
+theorem dup_targets_reload (old cur : Back) (same : Bool) (sc : List Resp)
+    (hl : ¬ old.eps.length < cur.eps.length) (hr : cur.resolver = false) (hd : cur.dynUpdate = true)
+    (hdup : hasDupTarget old.eps = true ∨ hasDupTarget cur.eps = true) :
+    checkBackendPair old cur same sc = ⟨false, cur.eps, [], false⟩ := by
+  unfold checkBackendPair
+  simp only [hl, if_false, hr, hd, Bool.false_eq_true, Bool.not_true]
+  rcases hdup with h | h <;> simp [h]
+
+/-- a backend with dynamic scaling off never sends a command -/
+theorem static_no_commands (old cur : Back) (same : Bool) (sc : List Resp) (hd : cur.dynUpdate = false)
+    (hr : cur.resolver = false) : (checkBackendPair old cur same sc).cmds = [] := by
+  unfold checkBackendPair
+  split
+  · rfl
+  · simp only [hr, hd, Bool.false_eq_true, if_false, Bool.not_false, if_true]
+    split <;> rfl
+
+def ep (n ip : String) (en : Bool) : EP :=
+  { name := n, ip := ip, port := if en then 8080 else 1023, enabled := en, weight := 1, cookie := n, label := "", tref := "", puid := 0 }
+
+/-- why the guard is needed (replayed on the Go code before the repair): with two current endpoints
+on one target the pairing loop hands the same server name to both … -/
+theorem dup_cur_gives_duplicate_names :
+    (pairLoop [ep "srv001" "10.0.0.1" true, ep "srv002" "127.0.0.1" false]
+      [ep "srv001" "10.0.0.1" true, ep "srv002" "10.0.0.1" true] false 1 true []).map (fun s => namesNodup s.cur)
+    = some false := by decide +kernel
+
+/-- … and with duplicated old targets `empty[i]` is read out of range (Go panics) -/
+theorem dup_old_out_of_range :
+    pairLoop [ep "srv001" "10.0.0.1" true, ep "srv002" "10.0.0.1" true]
+      [ep "srv001" "10.0.0.2" true, ep "srv002" "10.0.0.3" true] false 1 true [] = none := by
+  decide +kernel
+
+/-- regenerated from the Go source: the accepted `set server` answers and the empty-slot address -/
+theorem facts_c02 :
+    Facts.c02OkPrefixes = ["IP changed from ", "no need to change "] ∧
+    Facts.c02EmptyAddr = "127.0.0.1" ∧ Facts.c02EmptyPort = 1023 := by decide
+
 end HapVerif.C02
